@@ -346,6 +346,11 @@ class Extractor:
         for p in params:
             if p not in b:
                 b[p] = self.ev(callee, callee.defaults[p], {}) if p in callee.defaults else ("unknown", "missing " + p)
+        # private bookkeeping parameters (recursion depth counters such as _depth) never reach a line_num
+        # argument; their numeric value would make the set of contexts infinite: abstract them
+        for p in list(b):
+            if p.startswith("_") and b[p][0] == "const":
+                b[p] = ("opaque",)
         return b
 
     def propagate(self):
